@@ -24,7 +24,6 @@ import (
 )
 
 type (
-	WaitGroup = sync.WaitGroup
 	Once      = sync.Once
 	Map       = sync.Map
 	Cond      = sync.Cond
@@ -50,6 +49,13 @@ type Controller interface {
 	// Lock blocks (in the scheduler's sense) until the lock is free.
 	Lock(m *Mutex) (handled bool)
 	Unlock(m *Mutex) (handled bool)
+	// Spawn runs fn as a thread of the explorer (a go statement of the library, rewritten by the
+	// overlay to one of the Go0..Go6 functions below).
+	Spawn(fn func()) (handled bool)
+	// Point is a scheduling point.
+	Point(label string) (handled bool)
+	// WaitZero blocks (in the scheduler's sense) until *word is zero.
+	WaitZero(word *int32, label string) (handled bool)
 }
 
 // Global, when non-nil, controls every Pool and Mutex of the process.
@@ -87,9 +93,26 @@ func (passthrough) PoolGet(p *Pool) (any, bool, bool) { return nil, false, false
 func (passthrough) PoolPut(p *Pool, x any) bool       { return false }
 func (passthrough) Lock(m *Mutex) bool                { return false }
 func (passthrough) Unlock(m *Mutex) bool              { return false }
+func (passthrough) Spawn(fn func()) bool              { return false }
+func (passthrough) Point(label string) bool           { return false }
+func (passthrough) WaitZero(w *int32, l string) bool  { return false }
+
+// global reads Global without the race detector looking: the harness sets it before its
+// threads start and clears it after they are done, but goroutines of the library that outlive
+// an execution may still consult it, and that is not a race of the code under test.
+//
+//go:norace
+//go:noinline
+func global() Controller { return Global }
+
+// SetGlobal sets Global (see global).
+//
+//go:norace
+//go:noinline
+func SetGlobal(c Controller) { Global = c }
 
 func current() Controller {
-	if g := Global; g != nil {
+	if g := global(); g != nil {
 		return g
 	}
 	if nBound.Load() == 0 {
@@ -186,3 +209,72 @@ type rlocker RWMutex
 
 func (r *rlocker) Lock()   { (*RWMutex)(r).RLock() }
 func (r *rlocker) Unlock() { (*RWMutex)(r).RUnlock() }
+
+// WaitGroup mirrors sync.WaitGroup.  The real one is always kept up to date (it carries the
+// happens-before edges the race detector sees); N shadows its counter for the scheduler,
+// with N >= the real counter at all times, so that N == 0 means the real Wait cannot block.
+type WaitGroup struct {
+	real sync.WaitGroup
+	N    int32
+}
+
+func (wg *WaitGroup) Add(delta int) {
+	if c := current(); c != nil {
+		c.Point("WaitGroup.Add")
+	}
+	if delta > 0 {
+		atomic.AddInt32(&wg.N, int32(delta))
+		wg.real.Add(delta)
+		return
+	}
+	wg.real.Add(delta) // panics on a negative counter, as the real one does
+	atomic.AddInt32(&wg.N, int32(delta))
+}
+
+func (wg *WaitGroup) Done() { wg.Add(-1) }
+
+func (wg *WaitGroup) Wait() {
+	if c := current(); c != nil {
+		c.WaitZero(&wg.N, "WaitGroup.Wait")
+	}
+	wg.real.Wait()
+}
+
+// Foreign counts the goroutines of the library that run outside the explorer.
+var Foreign atomic.Int64
+
+func spawn(fn func()) {
+	c := current()
+	if c != nil && c.Spawn(fn) {
+		return
+	}
+	if c == nil {
+		go fn()
+		return
+	}
+	Foreign.Add(1)
+	go func() {
+		defer Foreign.Add(-1)
+		fn()
+	}()
+}
+
+// Go0..Go6 replace the go statements of the library: `go f(a, b)` becomes Go2(f, a, b), which
+// evaluates f, a and b in the calling goroutine exactly as the go statement does.
+func Go0(f func()) { spawn(f) }
+
+func Go1[A any](f func(A), a A) { spawn(func() { f(a) }) }
+
+func Go2[A, B any](f func(A, B), a A, b B) { spawn(func() { f(a, b) }) }
+
+func Go3[A, B, C any](f func(A, B, C), a A, b B, c C) { spawn(func() { f(a, b, c) }) }
+
+func Go4[A, B, C, D any](f func(A, B, C, D), a A, b B, c C, d D) { spawn(func() { f(a, b, c, d) }) }
+
+func Go5[A, B, C, D, E any](f func(A, B, C, D, E), a A, b B, c C, d D, e E) {
+	spawn(func() { f(a, b, c, d, e) })
+}
+
+func Go6[A, B, C, D, E, F any](f func(A, B, C, D, E, F), a A, b B, c C, d D, e E, g F) {
+	spawn(func() { f(a, b, c, d, e, g) })
+}
